@@ -77,6 +77,11 @@ class PROP(E2E):
                 pdu = cligen.exc_pdu(mb.req_fc(req), rng.randrange(1, 12)) if exc else mb.spec_rsp_pdu(rsp)
                 fr = cligen.frame(proto, j, slave, pdu)
                 parts = rng.choice([[fr], mb.chunkings(fr, rng, 1)[0], [fr[:3], fr[3:]], [fr[:k] for k in (4,)] + [fr[4:]]]) if len(fr) > 4 else [fr]
+                if rng.random() < 0.3:
+                    # the peer repeats the frame (or sends another well-formed one) in the same segment: what lies behind the reply a call
+                    # has consumed is not the next call's reply
+                    dup = rng.choice([fr, cligen.frame(proto, j, slave, mb.spec_rsp_pdu(("RHR", [0xAAAA, 0xBBBB])))])
+                    parts = parts[:-1] + [parts[-1] + dup]
                 ops.append(cligen.call_op(req, R=mb.rscript([p for p in parts if len(p)])))
                 wants.append("EX:%d" % pdu[1] if exc else "OK:" + mb.show_rsp(mb.pad_rsp(rsp)))
             seqs.append(Case(cligen.cli_line(proto, slave, ops), {"stage": "seq", "wants": wants, "proto": proto}))
